@@ -83,6 +83,10 @@ const c18ScriptPaired = "title: P\n---\n[nomarkup][x]raw[/x][/nomarkup] a\n[sele
 // c18ScriptBadIndent fails to load while an indented block is still open (tabs and spaces mixed inside an option body).
 const c18ScriptBadIndent = "title: Y\n---\n-> o\n    in\n    \tmixed\n===\n"
 
+// c18ScriptFaults: statements that fail (an unknown command, an unknown variable, arguments a converted command refuses, a
+// jump to an unknown node) between lines that call the numeric built-ins: every runner reports each fault itself, every time.
+const c18ScriptFaults = "title: U\n---\nbefore {floor(2.5)}\n<<fanfare loud>>\nmid {$nope}\n<<act x y>>\nafter {round_places(1.26, 1)} {ceil(2.5)} {inc(1)} {round(0.5)}\n<<fanfare again>>\n<<jump Nowhere>>\nend {decimal(1.5)} {dec(3)} {integer(-1.5)}\n===\n"
+
 var c18Shared *ysgo.Snapshot
 
 func c18Install(dr *ysgo.DialogueRunner, log *[]string) {
@@ -164,7 +168,8 @@ func runC18(ctx *report.Ctx) {
 	tBad := &c18Task{name: "invalid script (load must fail)", script: c18ScriptBad, seed: "abc", path: nil}
 	tBadIndent := &c18Task{name: "invalid script (mixed indentation inside an option body)", script: c18ScriptBadIndent, seed: "abc", path: nil}
 	tP := &c18Task{name: "paired replacement markers", script: c18ScriptPaired, seed: "abc", path: []int{0, 0, 0, 0}}
-	all := []*c18Task{tA1, tA2, tA3, tC, tR1, tR2, tL, tO, tBad}
+	tU := &c18Task{name: "failing statements and numeric built-ins", script: c18ScriptFaults, seed: "abc", path: []int{0, 0, 0, 0, 0, 0, 0, 0, 0}}
+	all := []*c18Task{tA1, tA2, tA3, tC, tR1, tR2, tL, tO, tBad, tU}
 	alone := map[*c18Task]string{}
 	for _, t := range all {
 		alone[t] = t.run(func() {}) // no execution active: plain run (also warms the caches)
@@ -326,12 +331,13 @@ func runC18(ctx *report.Ctx) {
 		{"A(abc,left) || C", []*c18Task{tA1, tC}, report.Pick(ctx, 4, 0)},
 		{"restore(shared) || restore(shared)", []*c18Task{tR1, tR2}, report.Pick(ctx, 3, 0)},
 		{"paired markers || paired markers", []*c18Task{tP, tP}, 0},
+		{"failing statements || failing statements", []*c18Task{tU, tU}, report.Pick(ctx, 6, 0)},
 		{"invalid (aborted in an indented block) || option group || invalid", []*c18Task{tBadIndent, tO, tBadIndent}, 0},
 		{"A(abc,left) || C || A(abc,right)", []*c18Task{tA1, tC, tA2}, report.Pick(ctx, 1, 3)},
 		{"restore(shared) || restore(shared) || A(abc,left)", []*c18Task{tR1, tR2, tA1}, report.Pick(ctx, 1, 2)},
 	}
 	if ctx.Quick() {
-		l1 = l1[:7]
+		l1 = l1[:8]
 	}
 	for i, sc := range l1 {
 		explore1(fmt.Sprintf("L1-%d", i+1), sc, vsched.Options{PreemptionBound: -1, Only: onlyAPI}, false, 5)
@@ -379,6 +385,7 @@ func c18RaceList() []*c18Task {
 		{name: "invalid script (load must fail)", script: c18ScriptBad, seed: "abc"},
 		{name: "paired replacement markers", script: c18ScriptPaired, seed: "abc", path: []int{0, 0, 0, 0}},
 		{name: "invalid script (mixed indentation inside an option body)", script: c18ScriptBadIndent, seed: "abc"},
+		{name: "failing statements and numeric built-ins", script: c18ScriptFaults, seed: "abc", path: []int{0, 0, 0, 0, 0, 0, 0, 0, 0}},
 	}
 }
 
